@@ -100,6 +100,22 @@ MUTATIONS = [
     ("tlexport/main.py", "        if len(packet_payload) < 6:", "        if len(packet_payload) < 5:", "handle_quic_packet: 5-byte long header read"),
     ("tlexport/output_builder.py", "        self.default_port = 8080", "        self.default_port = 8081", "OutputBuilder: fallback port"),
     ("tlexport/quic/quic_output_builder.py", "        if keep_original_ports is False:", "        if keep_original_ports is True:", "QUICOutputbuilder: flag inverted"),
+    # group Decrypt: decryptor.py
+    ("tlexport/decryptor.py", "    b_padded = bytes(diff) + b", "    b_padded = b + bytes(diff)", "Dec.byte_xor: zero padding at the wrong end"),
+    ("tlexport/decryptor.py", "        xor_out.append(a[i] ^ b_padded[i])", "        xor_out.append(a[i] | b_padded[i])", "Dec.byte_xor: or instead of xor"),
+    ("tlexport/decryptor.py", "        if self.bulk_alg in [AESCCM, AESGCM]:", "        if self.bulk_alg in [AESGCM]:", "get_cipher_type: AESCCM not an AEAD"),
+    ("tlexport/decryptor.py", "            self.server_seq = 0", "            self.server_seq = 1", "update_keys: sequence number restarts at 1"),
+    ("tlexport/decryptor.py", "            self.client_iv = self.client_application_iv", "            self.client_iv = self.client_handshake_iv", "update_keys: client keeps the handshake IV"),
+    ("tlexport/decryptor.py", "        associated_data = int.to_bytes(record.record_type, 1, 'big') + record.record_version + record.record_length", "        associated_data = int.to_bytes(record.record_type, 1, 'big') + record.record_version", "decrypt_tls13_aead: record length missing from the associated data", 0),
+    ("tlexport/decryptor.py", "        nonce = byte_xor(iv, int(seq).to_bytes(8, 'big'))", "        nonce = byte_xor(iv, int(seq).to_bytes(4, 'big'))", "decrypt_tls13_stream_cipher: 4-byte sequence number in the nonce", 1),
+    ("tlexport/decryptor.py", "        ciphertext_len = len(ciphertext) - 8 - self.tag_length", "        ciphertext_len = len(ciphertext) - 8", "decrypt_tls12_aead: tag counted into the plaintext length"),
+    ("tlexport/decryptor.py", "        nonce = iv + record.binary[:8]", "        nonce = record.binary[:8] + iv", "decrypt_tls12_aead: explicit nonce before the salt"),
+    ("tlexport/decryptor.py", "        ciphertext = record.binary[8:]", "        ciphertext = record.binary[7:]", "decrypt_tls12_aead: ciphertext starts inside the explicit nonce"),
+    ("tlexport/decryptor.py", "                len(record.binary) - 16).to_bytes(2, 'big')", "                len(record.binary) - 15).to_bytes(2, 'big')", "decrypt_tls12_chacha20: plaintext length off by one in the associated data"),
+    ("tlexport/decryptor.py", "            self.server_seq += 1", "            self.server_seq += 2", "decrypt_tls12_aead: server sequence number advances by 2", 2),
+    ("tlexport/decryptor.py", "        elif self.tls_version == TlsVersion.TLS12 and self.bulk_alg == ChaCha20Poly1305:", "        elif self.tls_version == TlsVersion.TLS11 and self.bulk_alg == ChaCha20Poly1305:", "Decryptor.decrypt: ChaCha20 routine chosen for TLS 1.1"),
+    ("tlexport/decryptor.py", "        elif self.cipher_type == EncryptionType.AEAD:\n            return self.decrypt_tls12_aead(record, isserver)", "        elif self.cipher_type == EncryptionType.Unknown:\n            return self.decrypt_tls12_aead(record, isserver)", "Decryptor.decrypt: AEAD records not dispatched"),
+    ("tlexport/decryptor.py", "            logging.info(f\"decrypting as Server: Key: 0x{key.hex()}, \"", "            logging.info(f\"decrypting as Server: Key: 0x{key}, \"", "decrypt_tls13_aead: the log line no longer fails on a missing key", 0),
     # group Builders: the output builders
     ("tlexport/quic/quic_output_builder.py", "            if frame.frame_type in [0x08, 0x09, 0x0a, 0x0b, 0x0c, 0x0d, 0x0e, 0x0f]:", "            if frame.frame_type in [0x08, 0x09, 0x0a, 0x0b, 0x0c, 0x0d, 0x0e]:", "QUICOutputbuilder.build: STREAM type 0x0f not exported"),
     ("tlexport/quic/quic_output_builder.py", "                if frame.frame_type == 0x06:\n                    data = frame.crypto", "                if frame.frame_type == 0x07:\n                    data = frame.crypto", "QUICOutputbuilder.build: CRYPTO meta-data under the wrong type"),
@@ -197,6 +213,8 @@ REWRITES = [
     ("tlexport/key_derivator.py", [("    h = hmac.HMAC(pm_secret, mac())\n    h.update(a1)\n    a2 = h.finalize()\n\n    h = hmac.HMAC(pm_secret, mac())\n    h.update(a1 + seed)\n    p1 = h.finalize()\n", "    h = hmac.HMAC(pm_secret, mac())\n    h.update(a1 + seed)\n    p1 = h.finalize()\n\n    h = hmac.HMAC(pm_secret, mac())\n    h.update(a1)\n    a2 = h.finalize()\n")], "gen_master_secret_tls_12: two independent blocks swapped"),
     ("tlexport/quic/quic_output_builder.py", [("            if frame.src_packet.ts == ts and frame.src_packet.isserver == isserver:", "            if frame.src_packet.isserver == isserver and frame.src_packet.ts == ts:")], "QUICOutputbuilder.build: operands of `and` swapped"),
     ("tlexport/output_builder.py", [("        record_len = len(decrypted)\n        packet_count = len(ts)\n", "        packet_count = len(ts)\n        record_len = len(decrypted)\n", 0)], "build_server_packet: two independent statements swapped"),
+    ("tlexport/decryptor.py", [("    for i in range(len(a)):", "    for i in range(0, len(a)):")], "Dec.byte_xor: explicit range start"),
+    ("tlexport/decryptor.py", [("            self.server_key = self.server_application_key\n            self.server_iv = self.server_application_iv\n", "            self.server_iv = self.server_application_iv\n            self.server_key = self.server_application_key\n")], "update_keys: two independent statements swapped"),
     ("tlexport/session.py", [("                metadata = []\n                record_len = packet_data[index + 3: index + 5]", "                record_len = packet_data[index + 3: index + 5]\n                metadata = []", 0)],
      "extract_server_frame: two independent statements swapped"),
     ("tlexport/session.py", [("        if self.server_cipher_change and isserver and self.can_decrypt:", "        if isserver and self.server_cipher_change and self.can_decrypt:")], "handle_handshake_finished: operands of `and` reordered"),
@@ -231,6 +249,9 @@ def group_of(what):
         return ["KeySched"]
     if fn in ("QUICOutputbuilder.build", "build_server_packet", "build_client_packet", "build_ack_handshake", "OutputBuilder.build"):
         return ["Builders"]
+    if fn in ("Dec.byte_xor", "get_cipher_type", "update_keys", "decrypt_tls13_aead", "decrypt_tls13_stream_cipher", "decrypt_tls12_aead",
+              "decrypt_tls12_chacha20", "Decryptor.decrypt"):
+        return ["Decrypt"]
     if fn in ("extract_server_frame", "extract_client_frame"):
         return ["Reasm2"]
     if fn in ("extract_server_buf", "extract_client_buf") and "next_seq" in what:
